@@ -293,5 +293,15 @@ func (p *Prog) VarInit(rel, name string) (*packages.Package, ast.Expr) {
 
 // IsRepoFunc reports whether fn's source is in the repo.
 func (p *Prog) IsRepoFunc(fn *ssa.Function) bool {
-	return fn != nil && fn.Pkg != nil && strings.HasPrefix(fn.Pkg.Pkg.Path(), Module)
+	for fn != nil {
+		if fn.Pkg != nil {
+			return strings.HasPrefix(fn.Pkg.Pkg.Path(), Module)
+		}
+		if o := fn.Origin(); o != nil && o != fn {
+			fn = o // instance of a generic function
+			continue
+		}
+		fn = fn.Parent()
+	}
+	return false
 }
